@@ -582,3 +582,400 @@ k_read_subframes_total!(k_frames_total_sr_31, 31, ChannelAssignment::SideRight, 
 k_read_subframes_total!(k_frames_total_ms_31, 31, ChannelAssignment::MidSide, 31, 32, 5);
 k_read_subframes_total!(k_frames_total_ms_32, 32, ChannelAssignment::MidSide, 32, 33, 5);
 k_read_subframes_total!(k_frames_total_ls_32, 32, ChannelAssignment::LeftSide, 32, 33, 5);
+
+// ------------------------------------------------------------------ Decoder::read_frame, modular
+//
+// contract (with FrameHeader::read and read_subframes replaced by their contracts):
+//   requires current_sample <= total (when the total is known)
+//   ensures  total known, nothing left  => Ok(None), nothing read, state unchanged
+//            Ok(Some(_)) => header Ok, block <= remaining, (block == remaining || block > 14),
+//                           subframes Ok, CRC-16 over every byte consumed == 0,
+//                           current_sample' == current_sample + block (<= total)
+//            any other case => Err (or Ok(None) on EOF when the total is unknown), state unchanged
+use crate::metadata::{BlockList, Streaminfo};
+use crate::verif_k::bits::ByteSrc;
+static G_HDR_KIND: AtomicUsize = AtomicUsize::new(0);
+static G_HDR_BS: AtomicUsize = AtomicUsize::new(0);
+static G_SUB_FAIL: AtomicUsize = AtomicUsize::new(0);
+
+fn stub_header_read<R: std::io::Read>(reader: &mut R, _streaminfo: &Streaminfo) -> Result<FrameHeader, Error> {
+    // consumes one byte (so that the enclosing CRC-16 reader sees header bytes)
+    let mut b = [0u8; 1];
+    let _ = reader.read(&mut b);
+    match G_HDR_KIND.load(Relaxed) {
+        0 => Ok(hdr(16, G_HDR_BS.load(Relaxed) as u16, ChannelAssignment::Independent(Independent::Mono))),
+        1 => Err(Error::Io(std::io::Error::from(std::io::ErrorKind::UnexpectedEof))),
+        _ => Err(Error::Crc8Mismatch),
+    }
+}
+
+fn stub_read_subframes<R: BitRead>(mut reader: R, _header: &FrameHeader, _buf: &mut Frame) -> Result<(), Error> {
+    // consumes the remaining two bytes of the 3-byte model frame
+    let _ = reader.skip(16);
+    if G_SUB_FAIL.load(Relaxed) != 0 {
+        Err(Error::InvalidSubframeHeader)
+    } else {
+        Ok(())
+    }
+}
+
+fn mk_streaminfo(total: Option<NonZero<u64>>) -> Streaminfo {
+    Streaminfo {
+        minimum_block_size: 16,
+        maximum_block_size: 65535,
+        minimum_frame_size: None,
+        maximum_frame_size: None,
+        sample_rate: 44100,
+        channels: NonZero::new(1).unwrap(),
+        bits_per_sample: sbc::<32>(16),
+        total_samples: total,
+        md5: None,
+    }
+}
+
+#[kani::proof]
+#[kani::unwind(4)]
+#[kani::stub(crate::stream::FrameHeader::read, stub_header_read)]
+#[kani::stub(read_subframes, stub_read_subframes)]
+pub(crate) fn k_read_frame_contract() {
+    let known: bool = kani::any();
+    let total: u64 = kani::any();
+    kani::assume(total >= 1 && total < (1 << 36));
+    let current: u64 = kani::any();
+    if known {
+        kani::assume(current <= total);
+    } else {
+        kani::assume(current < (1 << 62));
+    }
+    let kind: usize = kani::any();
+    kani::assume(kind <= 2);
+    let bs: u16 = kani::any();
+    kani::assume(bs >= 1);
+    let sub_fail: bool = kani::any();
+    G_HDR_KIND.store(kind, Relaxed);
+    G_HDR_BS.store(bs as usize, Relaxed);
+    G_SUB_FAIL.store(sub_fail as usize, Relaxed);
+    let bytes: [u8; 3] = kani::any();
+    let src = ByteSrc::<3>::full(bytes);
+    let blocks = BlockList::new(mk_streaminfo(if known { NonZero::new(total) } else { None }));
+    let mut d = Decoder::new(src, blocks);
+    d.current_sample = current;
+    let crc = spec::crc16_step(spec::crc16_step(spec::crc16_step(0, bytes[0]), bytes[1]), bytes[2]);
+    let (is_some, is_none, is_err) = match d.read_frame() {
+        Ok(Some(_)) => (true, false, false),
+        Ok(None) => (false, true, false),
+        Err(_) => (false, false, true),
+    };
+    let consumed = d.reader.pos;
+    let remaining = total.wrapping_sub(current);
+    if known && remaining == 0 {
+        vk_assert!(is_none, "end of a stream of known length is Ok(None)");
+        vk_assert!(consumed == 0 && d.current_sample == current, "nothing is read or changed at the end of the stream");
+    } else if kind == 1 && !known {
+        vk_assert!(is_none, "EOF at a frame boundary ends a stream of unknown length");
+    } else if kind != 0 {
+        vk_assert!(is_err, "frame header error must be reported");
+    } else {
+        let short_ok = !known || u64::from(bs) == remaining || bs > 14;
+        let fits = !known || u64::from(bs) <= remaining;
+        if is_some {
+            vk_assert!(short_ok, "a block of <= 14 samples is only legal as the last block");
+            vk_assert!(fits, "a frame holding more samples than STREAMINFO leaves must be rejected");
+            vk_assert!(!sub_fail, "subframe error swallowed");
+            vk_assert!(crc == 0, "frame released although CRC-16 over its bytes is not zero");
+            vk_assert!(consumed == 3, "CRC-16 must cover every byte of the frame");
+            vk_assert!(d.current_sample == current + u64::from(bs), "position advances by the block size");
+        } else {
+            vk_assert!(is_err, "a frame is either released or an error");
+            vk_assert!(d.current_sample == current, "position unchanged on error");
+            vk_assert!(!(short_ok && fits && !sub_fail && crc == 0), "a valid frame was rejected");
+        }
+    }
+    kani::cover!(is_some, "frame released");
+    kani::cover!(is_err && kind == 0 && !sub_fail, "CRC / size rejection reachable");
+}
+
+// ------------------------------------------------------------------ Decoder::seek (seek table lookup)
+//
+// contract: with a SEEKTABLE of two points (defined or placeholder, any values the block parser admits)
+//   Ok(r): r == sample offset of the last defined point whose offset <= target (0 if none),
+//          reader positioned at frames_start + that point's byte offset (frames_start if none),
+//          current_sample == r <= target;  never panics (no overflow in frames_start + byte_offset)
+use crate::metadata::{SeekPoint, SeekTable as MdSeekTable};
+pub(crate) struct SeekRec {
+    pub at: Option<u64>,
+    pub fail: bool,
+}
+impl std::io::Seek for SeekRec {
+    fn seek(&mut self, pos: std::io::SeekFrom) -> std::io::Result<u64> {
+        if self.fail {
+            return Err(std::io::Error::from(std::io::ErrorKind::Other));
+        }
+        match pos {
+            std::io::SeekFrom::Start(p) => {
+                self.at = Some(p);
+                Ok(p)
+            }
+            _ => Err(std::io::Error::from(std::io::ErrorKind::InvalidInput)),
+        }
+    }
+}
+impl std::io::Read for SeekRec {
+    fn read(&mut self, _buf: &mut [u8]) -> std::io::Result<usize> {
+        Ok(0)
+    }
+}
+
+fn any_point() -> SeekPoint {
+    if kani::any() {
+        SeekPoint::Placeholder
+    } else {
+        SeekPoint::Defined { sample_offset: kani::any(), byte_offset: kani::any(), frame_samples: kani::any() }
+    }
+}
+
+#[kani::proof]
+#[kani::unwind(5)]
+pub(crate) fn k_decoder_seek_table2() {
+    let p0 = any_point();
+    let p1 = any_point();
+    let pts = vec![p0.clone(), p1.clone()];
+    let table = match crate::metadata::contiguous::Contiguous::try_from(pts) {
+        Ok(t) => t,
+        Err(_) => { kani::assume(false); unreachable!() }
+    };
+    let mut blocks = BlockList::new(mk_streaminfo(None));
+    blocks.insert(MdSeekTable { points: table });
+    let mut d = Decoder { reader: SeekRec { at: None, fail: kani::any() }, blocks, current_sample: kani::any(), buf: Frame::default() };
+    let frames_start: u64 = kani::any();
+    let target: u64 = kani::any();
+    // a real file position and real seek points are far below 2^63
+    kani::assume(frames_start < (1 << 62));
+    let res = d.seek(frames_start, target);
+    // reference: last defined point with offset <= target
+    let mut want: (u64, u64) = (0, 0);
+    let mut found = false;
+    for p in [&p0, &p1] {
+        if let SeekPoint::Defined { sample_offset, byte_offset, .. } = p {
+            if *sample_offset <= target { want = (*sample_offset, *byte_offset); found = true; }
+        }
+    }
+    match res {
+        Ok(r) => {
+            vk_assert!(!d.reader.fail, "seek error of the underlying stream swallowed");
+            vk_assert!(r == want.0 && r <= target, "seek lands on the last seek point at or before the target");
+            vk_assert!(d.current_sample == r, "decoder position equals the landing point");
+            vk_assert!(d.reader.at == Some(frames_start.wrapping_add(if found { want.1 } else { 0 })), "stream positioned at frames_start + byte offset of the landing point");
+        }
+        Err(_) => {
+            vk_assert!(d.reader.fail || (found && frames_start.checked_add(want.1).is_none()), "seek failed although the landing point is reachable");
+        }
+    }
+}
+
+// ------------------------------------------------------------------ FlacByteReader::seek (byte position arithmetic)
+//
+// contract (Decoder::seek replaced by a recorder that fails): the sample handed to the decoder is
+//   floor(target_byte / bytes_per_pcm_frame) where target_byte is Start(n) | current byte + d | total bytes - d,
+//   total bytes = total samples x channels x ceil(bps/8); End(+d), below zero => Err; Current(0) reports the position
+static G_SEEK_ARG: AtomicUsize = AtomicUsize::new(usize::MAX);
+static G_SEEK_CALLS: AtomicUsize = AtomicUsize::new(0);
+fn stub_decoder_seek_rec<R: std::io::Seek>(_d: &mut Decoder<R>, _frames_start: u64, sample: u64) -> Result<u64, Error> {
+    G_SEEK_ARG.store(sample as usize, Relaxed);
+    G_SEEK_CALLS.fetch_add(1, Relaxed);
+    Err(Error::InvalidSeek)
+}
+
+macro_rules! k_byte_reader_seek_arith {
+    ($name:ident, $ch:expr, $bps:expr) => {
+#[kani::proof]
+#[kani::unwind(3)]
+#[kani::stub(Decoder::seek, stub_decoder_seek_rec)]
+pub(crate) fn $name() {
+    let channels: u8 = $ch;
+    let bps: u32 = $bps;
+    let total: u64 = kani::any();
+    kani::assume(total >= 1 && total < (1 << 36));
+    let mut si = mk_streaminfo(NonZero::new(total));
+    si.channels = NonZero::new(channels).unwrap();
+    si.bits_per_sample = sbc::<32>(bps);
+    let bpf: u64 = u64::from(bps.div_ceil(8)) * u64::from(channels);
+    let current: u64 = kani::any();
+    kani::assume(current <= total);
+    let mut d = Decoder::new(SeekRec { at: None, fail: false }, BlockList::new(si));
+    d.current_sample = current;
+    let mut r: FlacByteReader<SeekRec, crate::byteorder::LittleEndian> = FlacByteReader {
+        decoder: d,
+        buf: VecDeque::default(),
+        endianness: std::marker::PhantomData,
+        frames_start: Some(0),
+    };
+    let cur_byte = current * bpf; // empty buffer: byte position == sample position
+    let which: u8 = kani::any();
+    let off: i64 = kani::any();
+    let upos: u64 = kani::any();
+    let pos = match which {
+        0 => std::io::SeekFrom::Start(upos),
+        1 => std::io::SeekFrom::Current(off),
+        _ => std::io::SeekFrom::End(off),
+    };
+    let res = std::io::Seek::seek(&mut r, pos);
+    let want: Option<u64> = match which {
+        0 => Some(upos),
+        1 => if off >= 0 { cur_byte.checked_add(off as u64) } else { cur_byte.checked_sub(off.unsigned_abs()) },
+        _ => if off > 0 { None } else { (total * bpf).checked_sub(off.unsigned_abs()) },
+    };
+    if which == 1 && off == 0 {
+        vk_assert!(matches!(res, Ok(p) if p == cur_byte), "SeekFrom::Current(0) reports the current byte position");
+        vk_assert!(G_SEEK_CALLS.load(Relaxed) == 0, "reporting the position must not move the stream");
+    } else {
+        match want {
+            None => {
+                vk_assert!(res.is_err(), "seek before byte 0 / past the end must fail");
+                vk_assert!(G_SEEK_CALLS.load(Relaxed) == 0, "an impossible target must not move the stream");
+            }
+            Some(b) => {
+                vk_assert!(G_SEEK_CALLS.load(Relaxed) == 1, "decoder seek invoked once");
+                vk_assert!(G_SEEK_ARG.load(Relaxed) as u64 == b / bpf, "decoder asked for the PCM frame that contains the target byte");
+            }
+        }
+    }
+}
+    };
+}
+k_byte_reader_seek_arith!(k_byte_seek_arith_1x8, 1, 8);
+k_byte_reader_seek_arith!(k_byte_seek_arith_2x16, 2, 16);
+k_byte_reader_seek_arith!(k_byte_seek_arith_2x24, 2, 24);
+k_byte_reader_seek_arith!(k_byte_seek_arith_8x32, 8, 32);
+k_byte_reader_seek_arith!(k_byte_seek_arith_3x12, 3, 12);
+
+// ------------------------------------------------------------------ FlacChannelReader (seek / fill_buf / consume)
+//
+// The decoder is replaced by its contract over an abstract stream: TOTAL samples per channel in
+// blocks of BLK, the sample at position p of channel c being value_at(c, p) (all distinct), so that
+// "which position is this" can be read off any delivered sample.
+//   Decoder::read_frame: at position >= TOTAL -> Ok(None); else decodes the block at the position
+//                        into `buf`, advances the position by BLK
+//   Decoder::seek:       lands on an arbitrary block boundary <= target, leaves `buf` alone
+use crate::audio::verif_k::{fill_abstract, value_at};
+const A_TOTAL: u64 = 6;
+const A_BLK: usize = 2;
+
+fn stub_read_frame_abs<R: std::io::Read>(d: &mut Decoder<R>) -> Result<Option<&Frame>, Error> {
+    if d.current_sample >= A_TOTAL {
+        return Ok(None);
+    }
+    let ch = usize::from(d.blocks.streaminfo().channels.get());
+    fill_abstract(&mut d.buf, ch, A_BLK, d.current_sample);
+    d.current_sample += A_BLK as u64;
+    Ok(Some(&d.buf))
+}
+
+fn stub_seek_abs<R: std::io::Seek>(d: &mut Decoder<R>, _frames_start: u64, sample: u64) -> Result<u64, Error> {
+    let land: u64 = kani::any();
+    kani::assume(land % (A_BLK as u64) == 0 && land <= sample && land <= A_TOTAL);
+    d.current_sample = land;
+    Ok(land)
+}
+
+/// well-formed reader state: nothing decoded yet (k = None) or block k decoded and `consumed` of it used
+fn chan_reader(ch: u8, decoded: Option<u64>, consumed: usize) -> FlacChannelReader<SeekRec> {
+    let mut si = mk_streaminfo(NonZero::new(A_TOTAL));
+    si.channels = NonZero::new(ch).unwrap();
+    let mut d = Decoder::new(SeekRec { at: None, fail: false }, BlockList::new(si));
+    if let Some(k) = decoded {
+        fill_abstract(&mut d.buf, ch as usize, A_BLK, k * A_BLK as u64);
+        d.current_sample = (k + 1) * A_BLK as u64;
+    }
+    FlacChannelReader { decoder: d, consumed, frames_start: Some(0) }
+}
+
+macro_rules! k_chan_seek {
+    ($name:ident, $ch:expr, $decoded:expr) => {
+        #[kani::proof]
+        #[kani::unwind(6)]
+        #[kani::stub(Decoder::read_frame, stub_read_frame_abs)]
+        #[kani::stub(Decoder::seek, stub_seek_abs)]
+        pub(crate) fn $name() {
+            let consumed: usize = kani::any();
+            kani::assume(consumed <= A_BLK);
+            if $decoded.is_none() { kani::assume(consumed == 0); }
+            let mut r = chan_reader($ch, $decoded, consumed);
+            let target: u64 = kani::any();
+            kani::assume(target <= A_TOTAL + 1);
+            let res = r.seek(target);
+            if target > A_TOTAL {
+                vk_assert!(res.is_err(), "seeking beyond the end of the stream must fail");
+            } else {
+                vk_assert!(res.is_ok(), "seeking inside the stream must succeed");
+                let bufs = r.fill_buf().unwrap();
+                vk_assert!(bufs.len() == $ch as usize, "one slice per channel");
+                if target < A_TOTAL {
+                    let mut c = 0;
+                    while c < $ch as usize {
+                        vk_assert!(!bufs[c].is_empty() && bufs[c][0] == value_at(c, target), "first sample after seek(t) is the sample at position t");
+                        vk_assert!(bufs[c].len() == A_BLK - (target as usize % A_BLK), "rest of the block that contains t is delivered");
+                        c += 1;
+                    }
+                } else {
+                    vk_assert!(bufs[0].is_empty(), "seek to the very end leaves nothing to read");
+                }
+            }
+        }
+    };
+}
+k_chan_seek!(k_chan_seek_1ch_b0, 1u8, Some(0u64));
+k_chan_seek!(k_chan_seek_2ch_b1, 2u8, Some(1u64));
+k_chan_seek!(k_chan_seek_1ch_b2, 1u8, Some(2u64));
+
+// contract (exactly once, in order): from a well-formed state at position p,
+//   fill_buf() == stream[p .. end of p's block] (empty at the end), consume(k) moves to p + k,
+//   and once the end was reported every further fill_buf() reports it again
+macro_rules! k_chan_deliver {
+    ($name:ident, $ch:expr, $decoded:expr) => {
+        #[kani::proof]
+        #[kani::unwind(6)]
+        #[kani::stub(Decoder::read_frame, stub_read_frame_abs)]
+        pub(crate) fn $name() {
+            let consumed: usize = kani::any();
+            kani::assume(consumed <= A_BLK);
+            if $decoded.is_none() { kani::assume(consumed == 0); }
+            let mut r = chan_reader($ch, $decoded, consumed);
+            // position of the reader in the stream
+            let p: u64 = match $decoded { Some(k) => k * A_BLK as u64 + consumed as u64, None => 0 };
+            let k: usize = kani::any();
+            {
+                let bufs = r.fill_buf().unwrap();
+                if p < A_TOTAL {
+                    let want = A_BLK - (p as usize % A_BLK);
+                    let mut c = 0;
+                    while c < $ch as usize {
+                        vk_assert!(bufs[c].len() == want, "fill_buf delivers the rest of the current block");
+                        let mut i = 0;
+                        while i < want {
+                            vk_assert!(bufs[c][i] == value_at(c, p + i as u64), "samples are delivered in stream order, none skipped or repeated");
+                            i += 1;
+                        }
+                        c += 1;
+                    }
+                    kani::assume(k <= want);
+                } else {
+                    vk_assert!(bufs[0].is_empty(), "nothing is delivered past the end of the stream");
+                    kani::assume(k == 0);
+                }
+            }
+            r.consume(k);
+            let p2 = p + k as u64;
+            let bufs = r.fill_buf().unwrap();
+            if p2 < A_TOTAL {
+                vk_assert!(!bufs[0].is_empty() && bufs[0][0] == value_at(0, p2), "after consume(k) delivery continues at p + k");
+            } else {
+                vk_assert!(bufs[0].is_empty(), "end of stream is reported again (no frame is delivered twice)");
+            }
+        }
+    };
+}
+k_chan_deliver!(k_chan_deliver_1ch_fresh, 1u8, None::<u64>);
+k_chan_deliver!(k_chan_deliver_2ch_b0, 2u8, Some(0u64));
+k_chan_deliver!(k_chan_deliver_1ch_b1, 1u8, Some(1u64));
+k_chan_deliver!(k_chan_deliver_1ch_b2, 1u8, Some(2u64));
